@@ -4,6 +4,7 @@ package proto
 import (
 	"bufio"
 	"fmt"
+	"github.com/vapourismo/knx-go/knx/util"
 	"os"
 	"sort"
 	"strconv"
@@ -282,6 +283,10 @@ func TestScripts(t *testing.T) {
 	defer w.Flush()
 	sc := bufio.NewScanner(fi)
 	sc.Buffer(make([]byte, 1<<20), 1<<26)
+	// the scripts run with a log target installed (an application that follows the README has one): the
+	// client's log calls are executed and formatted, not skipped.  Installed once: the library reads the
+	// variable without synchronisation, goroutines of an earlier script may still be logging
+	util.Logger = quietLog{}
 	for sc.Scan() {
 		line := strings.TrimSpace(sc.Text())
 		if line == "" || strings.HasPrefix(line, "#") {
@@ -315,6 +320,8 @@ func TestScripts(t *testing.T) {
 			tr = runReconnRT(t, line)
 		case strings.HasPrefix(line, "lrt "):
 			tr = runLostRT(t, line)
+		case strings.HasPrefix(line, "rsrt "):
+			tr = runResendRT(t, line)
 		default:
 			tr = "bad-op"
 		}
@@ -323,3 +330,8 @@ func TestScripts(t *testing.T) {
 		w.Flush()
 	}
 }
+
+// quietLog is a log target that formats like a real one and keeps nothing
+type quietLog struct{}
+
+func (quietLog) Printf(format string, args ...interface{}) { _ = fmt.Sprintf(format, args...) }
